@@ -1,6 +1,46 @@
 import SparkxVerif.Drv.C09
+import SparkxVerif.Core.HistSession
 
-/-! C10 uses the same Histogram driver as C09 (histories with every operation and `wr` observations). -/
+/-! driver for C10.
+
+`sess <edges> <call>|<call>|...`  ->  `ok <obs>|<obs>|...` : a session on one object (`Core/HistSession.lean`,
+`trace`).  Calls are the ops of the C09 driver, `wr,…` and the accessors `g,<c|w|l|r|b|h|k|e|n>`
+(bin_centers, bin_width, bin_bounds_left, bin_bounds_right, bin_boundaries, histogram, histogram_raw_counts,
+standard_error, number_of_histograms).  One observation per call: for an op the state as in the C09 driver;
+for an output `<out>^<state>` with `<out>` = `w~…` (file) | `v~<floats>` | `m~<array>` | `n~<nat>` and `<state>`
+the (unchanged) state after it.
+Everything else (`hist`, `lin`) is answered by the C09 driver.
+-/
 namespace SparkxVerif.Drv.C10
-def handle : List String → String := SparkxVerif.Drv.C09.handle
+open SparkxVerif.Proto SparkxVerif.Hist
+
+def getter? : String → Option Getter
+  | "c" => some .centers | "w" => some .widths | "l" => some .left | "r" => some .right
+  | "b" => some .boundaries | "h" => some .histogram | "k" => some .rawCounts | "e" => some .stdError
+  | "n" => some .nHist | _ => none
+
+def call? (s : String) : Option (Call Float) :=
+  match s.splitOn "," with
+  | ["g", g] => (getter? g).map .get
+  | _ =>
+    match SparkxVerif.Drv.C09.cmd? s with
+    | some (.op o) => some (.op o)
+    | some (.wr cols labels) => some (.write cols labels)
+    | none => none
+
+def showOut (s : State Float) : Out Float → String
+  | .done e => SparkxVerif.Drv.C09.showState s e
+  | .file r => SparkxVerif.Drv.C09.showWrite r ++ "^" ++ SparkxVerif.Drv.C09.showState s none
+  | .vec xs => "v~" ++ showFloats xs ++ "^" ++ SparkxVerif.Drv.C09.showState s none
+  | .mat a => "m~" ++ SparkxVerif.Drv.C09.showArr a ++ "^" ++ SparkxVerif.Drv.C09.showState s none
+  | .num n => "n~" ++ toString n ++ "^" ++ SparkxVerif.Drv.C09.showState s none
+
+def handle : List String → String
+  | ["sess", edges, calls] =>
+    match floatList? edges, (if calls.isEmpty then some [] else (calls.splitOn "|").mapM call?) with
+    | some es, some cs =>
+      "ok " ++ "|".intercalate ((trace Float.sqrt (init es) cs).map (fun p => showOut p.1 p.2))
+    | _, _ => "bad-op"
+  | l => SparkxVerif.Drv.C09.handle l
+
 end SparkxVerif.Drv.C10
